@@ -31,6 +31,10 @@ m("c01-vlen-fixed-stride", ["C01"], "trie/slimtrie_vlen_array.go",
   "if allEqual {", "if allEqual || len(nonEmptyIndexes) < 3 {")
 m("c01-leafprefix-empty-tail", ["C01", "C03"], "trie/slimtrie_create.go",
   "if len(pref) > 0 {", "if len(pref) > 1 {")
+m("c01-leaf-ordinal-16bit", ["C01"], "trie/slimtrie_query.go",
+  "\treturn nodeid - r, ith\n", "\treturn int32(uint16(nodeid - r)), ith\n")
+m("c01-innerprefix-rank-16bit", ["C01"], "trie/slimtrie_query.go",
+  "\t\t\tqr.innerPrefixLen = decStep(ips.Bytes[ithPref<<1:])", "\t\t\tqr.innerPrefixLen = decStep(ips.Bytes[int32(uint16(ithPref))<<1:])")
 # ---- C02
 m("c02-no-rightmost-descent", ["C02", "C09"], "trie/slimtrie_query.go",
   "\tif lID != -1 {\n\t\tlID = st.rightMost(lID)\n\t}", "\tif lID != -1 && false {\n\t\tlID = st.rightMost(lID)\n\t}")
